@@ -34,6 +34,9 @@ type ResourceDef struct {
 	AllowUnconditionalUpdate bool
 	// NoGeneration: metadata.generation is not maintained (e.g. ConfigMap).
 	NoGeneration bool
+	// Hidden: served, but not (yet) listed by discovery - a CRD that is not installed yet
+	// as far as clients can tell. Flip with SetHidden.
+	Hidden bool
 }
 
 func (d *ResourceDef) GVR() schema.GroupVersionResource {
@@ -825,6 +828,23 @@ func jsonResponse(req *http.Request, code int, v any) *http.Response {
 		Header: http.Header{"Content-Type": []string{"application/json"}}, Body: io.NopCloser(bytes.NewReader(b)), ContentLength: int64(len(b)), Request: req}
 }
 
+func (s *Server) isHidden(d *ResourceDef) bool {
+	s.mu.Lock()
+	defer s.mu.Unlock()
+	return d.Hidden
+}
+
+// SetHidden hides a resource from discovery or reveals it.
+func (s *Server) SetHidden(resource string, hidden bool) {
+	s.mu.Lock()
+	defer s.mu.Unlock()
+	for _, d := range s.defs {
+		if d.Resource == resource {
+			d.Hidden = hidden
+		}
+	}
+}
+
 func (s *Server) discoveryResponse(req *http.Request, pp *parsedPath) *http.Response {
 	switch pp.discovery {
 	case "api":
@@ -832,7 +852,7 @@ func (s *Server) discoveryResponse(req *http.Request, pp *parsedPath) *http.Resp
 	case "apis":
 		groups := map[string][]string{}
 		for _, d := range s.defs {
-			if d.Group == "" {
+			if d.Group == "" || s.isHidden(d) {
 				continue
 			}
 			found := false
@@ -866,7 +886,7 @@ func (s *Server) discoveryResponse(req *http.Request, pp *parsedPath) *http.Resp
 		}
 		var rs []any
 		for _, d := range s.defs {
-			if d.Group != pp.group || d.Version != pp.ver {
+			if d.Group != pp.group || d.Version != pp.ver || s.isHidden(d) {
 				continue
 			}
 			verbs := []string{"create", "delete", "deletecollection", "get", "list", "patch", "update", "watch"}
